@@ -750,14 +750,40 @@ pub fn gen_huge_history_v(rng: &mut Rng, specs: Specs, regime: WeightRegime, der
 /// two diamonds (ties) and isolated nodes. Dyadic weights, so every sum is exact.
 pub fn gen_giant_graph(rng: &mut Rng, directed: bool) -> (Specs, Vec<Op>) {
     let specs = Specs::kind(directed, false, false);
-    let n = *rng.pick(&[47_000usize, 52_000, 65_600, 66_500, 70_000]);
+    let n = *rng.pick(&[47_000usize, 52_000, 66_500, 70_000, 80_000]);
     let names: Vec<String> = (0..n).map(|i| format!("g{}", i)).collect();
     let isolated = rng.range(5, 400);
     let leaves = n - isolated - 12;
     let mut es: Vec<(usize, usize, f64)> = vec![];
-    // node 0 is the source; leaves 1..=leaves
+    // node 0 is the source; leaves 1..=leaves. The source reaches at most 58 000 - 64 500 of them directly (one burst
+    // that stays below 2^16 fringe entries); the others hang below a directly reached leaf
+    let direct = leaves.min(rng.range(58_000, 64_500));
+    let mut len = vec![0.0f64; leaves + 1];
     for v in 1..=leaves {
-        es.push((0, v, 10.0 + rng.below(64_000) as f64 / 64.0));
+        if v <= direct {
+            len[v] = 10.0 + rng.below(64_000) as f64 / 64.0;
+            es.push((0, v, len[v]));
+        } else {
+            es.push((1 + rng.below(direct), v, 1.0 + rng.below(640) as f64 / 64.0));
+        }
+    }
+    // a relay next to the source shortens 6 000 - 10 000 of the direct entries by 1/256: a second burst that takes
+    // the fringe above 2^16 entries while superseded entries are still in it
+    let relay = leaves; // the last leaf doubles as the relay (it is reached first: length 1)
+    if relay > direct || relay >= 1 {
+        let r = relay.min(direct);
+        len[r] = 1.0;
+        for e in es.iter_mut() {
+            if e.0 == 0 && e.1 == r {
+                e.2 = 1.0;
+            }
+        }
+        for _ in 0..rng.range(6_000, 10_000) {
+            let v = 1 + rng.below(direct);
+            if v != r && len[v] > 2.0 {
+                es.push((r, v, len[v] - 1.0 - 1.0 / 256.0));
+            }
+        }
     }
     // second level: a near leaf shortens a far one by a little or by a lot
     for _ in 0..leaves / 8 {
@@ -857,6 +883,9 @@ pub fn gen_hub_graph(rng: &mut Rng, directed: bool, multi: bool, self_loops: boo
             let u = rng.below(n);
             pairs.push((u, u));
         }
+        if rng.chance(1, 2) {
+            pairs.push((hub, hub)); // a self-loop on the node of highest degree
+        }
     }
     if multi {
         for _ in 0..rng.range(0, 20) {
@@ -876,7 +905,7 @@ pub fn gen_hub_graph(rng: &mut Rng, directed: bool, multi: bool, self_loops: boo
 /// A dense graph (one to three dense blocks) with 8 200 - 12 500 stored edges, or 2 100 - 5 000.
 pub fn gen_dense_graph(rng: &mut Rng, directed: bool, multi: bool, self_loops: bool, regime: WeightRegime) -> (Specs, Vec<Op>) {
     let specs = Specs::kind(directed, multi, self_loops);
-    let m_target = *rng.pick(&[1100usize, 1100, 2100, 4200, 8300, 8300, 9000, 10500, 12500, 17000]);
+    let m_target = *rng.pick(&[1100usize, 1100, 2100, 4200, 8300, 8300, 9000, 10500, 12500, 17000, 17000, 20000]);
     let k = *rng.pick(&[1usize, 1, 2, 3]);
     let cap = |b: usize| if directed { b * (b - 1) } else { b * (b - 1) / 2 };
     let mut b = 20;
